@@ -116,6 +116,13 @@ class BoomError(Exception):
     pass
 
 
+class QuietError(Exception):
+    """An exception class whose instances are falsy (it carries a list of problems and defines __len__)."""
+
+    def __len__(self):
+        return 0
+
+
 # what a model's own code gets from the library when it asks for a missing agent, adds one twice, reads a component an
 # agent does not carry or steps a finished (sub-)model
 LIB_ERRORS = {'ModelCompleteError': lambda m: Core.ModelCompleteError(),
@@ -128,7 +135,7 @@ BOOM_KINDS = {'RuntimeError': RuntimeError, 'StopIteration': StopIteration, 'Key
               'ComponentNotFoundError': Core.ComponentNotFoundError,
               # the built-in TimeoutError (what a model's own I/O may raise), and errors raised after complete()
               'TimeoutError': TimeoutError, 'RuntimeError!done': RuntimeError, 'BoomError!done': BoomError,
-              'NotImplementedError': NotImplementedError}
+              'NotImplementedError': NotImplementedError, 'QuietError': QuietError}
 
 
 LIB_ERROR_TYPES = tuple(BOOM_KINDS[k] for k in LIB_ERRORS)
@@ -311,7 +318,7 @@ def run_batch(case, cache=None):
         try:
             got = Batching.batch_run(BModel, params, **kwargs)
             raised = None
-        except (RuntimeError, StopIteration, KeyError, BoomError, AttributeError, TimeoutError, NotImplementedError) + \
+        except (RuntimeError, StopIteration, KeyError, BoomError, QuietError, AttributeError, TimeoutError, NotImplementedError) + \
                 LIB_ERROR_TYPES as e:
             got, raised = None, e
         except sched.PoolHang as e:
